@@ -795,6 +795,71 @@ def gen_units_case(src):
     return {"op": src.choice(["div", "div", "modulo", "mul"]), "a": fix_t(a), "b": fix_t(b), "shape": "units"}
 
 
+# ---- part: the result of an operation does not depend on what other threads compute at that moment ---------------------------------
+
+def gen_concurrent(src):
+    """24..60 FeelNumber operations (every one also judged alone by the other parts): rounding-sensitive inexact operations next to
+    floor / ceiling / trunc / fract / round, evaluated alone, by 2..12 threads at once, and alone again afterwards"""
+    cases = []
+    for _ in range(src.int(24, 60)):
+        k = src.weighted([(4, "inexact"), (4, "integral"), (2, "any")])
+        if k == "integral":
+            op = src.choice(["floor", "ceiling", "trunc", "fract", "decimal"])
+            if op == "decimal":
+                a, b, _ = gen_decimal(src)
+                c = {"op": op, "a": fix_t(a), "b": fix_t(b)}
+            else:
+                a, _ = gen_unary(src, op) if op in ("floor", "ceiling") else (rand_t(src), None)
+                c = {"op": op, "a": fix_t(a), "b": None}
+        elif k == "inexact":
+            op = src.choice(["div", "div", "add", "sub", "mul", "sqrt", "exp"])
+            if op == "div":
+                c = {"op": op, "a": fix_t(small_int_t(src, 1, 40)), "b": fix_t(src.choice([["", "3", 0], ["", "7", 0], ["", "9", 0], ["-", "3", 0], ["", "11", 0]]))}
+            elif op in ("add", "sub"):
+                a, b, _ = gen_addsub(src, op)
+                c = {"op": op, "a": fix_t(a), "b": fix_t(b)}
+            elif op == "mul":
+                a, b, _ = gen_mul(src)
+                c = {"op": op, "a": fix_t(a), "b": fix_t(b)}
+            else:
+                c = {"op": op, "a": fix_t(small_int_t(src, 2, 30)), "b": None}
+        else:
+            c = gen_case(src)
+            if c["op"] == "cmp":
+                c = {"op": "div", "a": fix_t(small_int_t(src, 1, 40)), "b": fix_t(["", "3", 0])}
+        if c["op"] in NUM_F:
+            cases.append(c)
+    return {"cases": cases, "threads": src.choice([2, 3, 4, 8, 12]), "rounds": src.choice([20, 50, 100])}
+
+
+def reqs_concurrent(case):
+    reqs = []
+    for c in case["cases"]:
+        a, b = dec.sci(c["a"]), (dec.sci(c["b"]) if c.get("b") is not None else None)
+        reqs.append({"op": "num", "f": NUM_F[c["op"]], "a": [a] + ([b] if b is not None else [])})
+    return [{"op": "numpar", "reqs": reqs, "threads": case["threads"], "rounds": case["rounds"]}]
+
+
+def judge_concurrent(ctx, case, resp):
+    r = resp[0]
+    infra(r)
+    if not isinstance(r, dict) or "mismatches" not in r:
+        raise Inconclusive("numpar answered %r" % (r,))
+    ctx.note(key=[case["threads"], [(c["op"], str(c["a"]), str(c["b"])) for c in case["cases"]]], nontrivial=case["threads"] >= 4,
+             labels=["concurrent", "threads=%d" % case["threads"]], sample=None)
+    ctx.count(int(r.get("evaluations", 0)))
+    if r["mismatches"]:
+        m = r["mismatches"][0]
+        c = case["cases"][m["i"]]
+        what = "%s(%s%s)" % (NUM_F[c["op"]], dec.sci(c["a"]), ", " + dec.sci(c["b"]) if c.get("b") is not None else "")
+        if "concurrent" in m:
+            return Fail("C02/result-depends-on-other-threads", "%s evaluated alone gives %s, evaluated while %d threads compute other numbers it gives %s "
+                        "(%d such results among %d operations)" % (what, m["alone"], case["threads"], m["concurrent"], len(r["mismatches"]), len(case["cases"])))
+        return Fail("C02/result-changes-after-concurrent-use", "%s evaluated alone gives %s before and %s after %d threads computed numbers" % (
+            what, m["alone"], m["alone_afterwards"], case["threads"]))
+    return None
+
+
 def gen_pow_edge_case(src):
     a, b, shape = gen_pow_edge(src)
     return {"op": "pow", "a": fix_t(a), "b": fix_t(b), "shape": shape}
@@ -862,6 +927,7 @@ def setup(ctx):
     ctx.p_rand = ctx.register(Part("tuples", gen_case, reqs_case, judge_case))
     ctx.p_powedge = ctx.register(Part("pow-edge", gen_pow_edge_case, reqs_case, judge_case))
     ctx.p_units = ctx.register(Part("units", gen_units_case, reqs_case, judge_case))
+    ctx.p_conc = ctx.register(Part("concurrent", gen_concurrent, reqs_concurrent, judge_concurrent))
     ctx.p_grid = ctx.register(Part("grid", None, reqs_case, judge_case))
 
 
@@ -871,6 +937,7 @@ def run(ctx):
     ctx.forall(ctx.p_rand, ctx.scale(45000, 3000000), batch=300)
     ctx.forall(ctx.p_powedge, ctx.scale(60000, 3000000), batch=300)
     ctx.forall(ctx.p_units, ctx.scale(40000, 3000000), batch=300)
+    ctx.forall(ctx.p_conc, ctx.scale(60, 3000), batch=1)
 
 
 if __name__ == "__main__":
